@@ -38,6 +38,8 @@ pub struct Session {
     /// `Some(plan)`: the transport buffers what it accepts (like the WebSocket adaptor) and only a completed flush
     /// puts it on the wire; `true` entries make a flush poll return Pending
     pub flush_plan: Option<Vec<bool>>,
+    /// version gate on (as connections made by the builder have it by default)
+    pub verify_version: bool,
     pub label: String,
 }
 
@@ -67,6 +69,7 @@ pub fn run_session(s: &Session) -> Outcome {
         }
     });
     let mut f = tokio_impl::Framed::new(Box::new(AsyncTransport(h.clone())), Codec::new(mode_of(s.compressed)));
+    f.verify_version(s.verify_version);
     let (_, sizes) = expected_results(&s.stream, s.compressed);
     let w = noop_waker();
     let mut cx = Context::from_waker(&w);
@@ -148,8 +151,22 @@ pub fn run_session(s: &Session) -> Outcome {
     out
 }
 
+/// Results of the uninterrupted session: one per frame, with the version gate applied when it is on.
+pub fn expected_with_gate(stream: &[u8], compressed: bool, verify_version: bool) -> Vec<ReadResult> {
+    let (mut expected, _) = expected_results(stream, compressed);
+    if verify_version {
+        let (frames, _) = ref_frames(stream, compressed);
+        for (i, f) in frames.iter().enumerate() {
+            if f.len() == 20 && f[1] == 2 && f[18] != 9 && matches!(expected.get(i), Some(ReadResult::Packet(_))) {
+                expected[i] = ReadResult::IncompatibleVersion(f[18]);
+            }
+        }
+    }
+    expected
+}
+
 fn judge(s: &Session, o: &Outcome, p: &mut Part) {
-    let (expected, _) = expected_results(&s.stream, s.compressed);
+    let expected = expected_with_gate(&s.stream, s.compressed, s.verify_version);
     let (frames, _) = ref_frames(&s.stream, s.compressed);
     let keepalives = frames.iter().filter(|f| f.len() == 4 && f[1] == 3 && f[2] == 0 && f[3] == 0).count();
     let susp = o.suspended_on.iter().map(|x| x.to_string()).collect::<Vec<_>>();
@@ -258,6 +275,16 @@ pub fn run(ctx: &mut Ctx) -> (&'static str, String, bool) {
         shorts.push((compressed, [&ping[..], &k[..], &small[..]].concat(), "ping-ka-small".into()));
         shorts.push((compressed, [&k[..], &k[..], &small[..], &k[..]].concat(), "ka-ka-small-ka".into()));
         shorts.push((compressed, [&small[..], &ping[..], &k[..], &ping[..]].concat(), "small-ping-ka-ping".into()));
+        // version packets under the gate (labels containing "ver" run with verification on)
+        let ver = |v: u8| -> Vec<u8> {
+            let mut f = vec![s(20), 2, 1, 0];
+            f.extend_from_slice(b"0.7F\0\0\0\0S3\0\0\0\0");
+            f.push(v);
+            f.push(0);
+            f
+        };
+        shorts.push((compressed, [&ver(8)[..], &ping[..]].concat(), "ver8-ping".into()));
+        shorts.push((compressed, [&k[..], &ver(10)[..], &k[..], &ver(9)[..]].concat(), "ka-ver10-ka-ver9".into()));
         if thorough {
             shorts.push((compressed, [&k[..], &small[..], &k[..], &ping[..], &k[..], &small[..]].concat(), "ka-small-ka-ping-ka-small".into()));
         }
@@ -300,7 +327,7 @@ pub fn run(ctx: &mut Ctx) -> (&'static str, String, bool) {
                 (rplan, wplan)
             };
             let (rplan, wplan) = mk_plans();
-            let base = Session { compressed: *compressed, stream: stream.clone(), read_plan: rplan, default_read: 0, write_plan: wplan, default_write: 0, drops: BTreeSet::new(), write_after_drop: false, flush_plan: if *fl == 0 { None } else { Some((0..200).map(|i| i % fl != fl - 1).collect()) }, label: format!("{label}-r{rp}x{rk}-w{wp}x{wk}-f{fl}") };
+            let base = Session { compressed: *compressed, stream: stream.clone(), read_plan: rplan, default_read: 0, write_plan: wplan, default_write: 0, drops: BTreeSet::new(), write_after_drop: false, flush_plan: if *fl == 0 { None } else { Some((0..200).map(|i| i % fl != fl - 1).collect()) }, verify_version: label.contains("ver"), label: format!("{label}-r{rp}x{rk}-w{wp}x{wk}-f{fl}") };
             // uninterrupted reference run
             let o0 = run_session(&base);
             p.evaluations += 1;
@@ -404,7 +431,7 @@ pub fn run(ctx: &mut Ctx) -> (&'static str, String, bool) {
             let ndrops = r.usize_below(30);
             let horizon = 50 + stream.len() / 4;
             let drops: BTreeSet<usize> = (0..ndrops).map(|_| 1 + r.usize_below(horizon)).collect();
-            let s = Session { compressed, stream, read_plan: rplan, default_read: 1 + r.usize_below(900), write_plan: wplan, default_write: 1 + r.usize_below(4), drops, write_after_drop: r.chance(1, 3), flush_plan: if i % 3 == 2 { Some((0..r.usize_below(60)).map(|_| r.chance(1, 2)).collect()) } else { None }, label: format!("long-{i}") };
+            let s = Session { compressed, stream, read_plan: rplan, default_read: 1 + r.usize_below(900), write_plan: wplan, default_write: 1 + r.usize_below(4), drops, write_after_drop: r.chance(1, 3), flush_plan: if i % 3 == 2 { Some((0..r.usize_below(60)).map(|_| r.chance(1, 2)).collect()) } else { None }, verify_version: i % 4 == 1, label: format!("long-{i}") };
             let o = run_session(&s);
             p.evaluations += 1;
             p.distinct(&s.stream);
